@@ -1,0 +1,7 @@
+//go:build verif
+
+package boxes
+
+// VerifC07MIntegerAttribute exposes integerAttribute (colspan / rowspan / span reader) to the
+// C07 model correspondence.
+func VerifC07MIntegerAttribute(attr string, minimum int) int { return integerAttribute(attr, minimum) }
